@@ -68,7 +68,14 @@ def call(h, fq, *args, **kw):
 @unit('C12', 'isa.temperature-and-pressure', [SA + ':temperature_at_altitude_isa_bada4', SA + ':pressure_at_altitude_isa_bada4'],
       replay='contracts.C12:replay_atmosphere')
 def isa_tp(h):
-    alt, n = arr(h, 'altitude')
+    # altitudes may come as floats or as whole metres in an integer array (np.array([0, 5000, 11000]))
+    if h.choice(2) == 0:
+        alt, n = arr(h, 'altitude')
+    else:
+        n = h.int('n_points')
+        h.assume(n >= 1)
+        alt = SArr.symbolic(h.ctx, 'altitude_whole_metres', n, sort=z3.IntSort())
+        h.ctx.named['altitudes_are_integers'] = z3.BoolVal(True)
     j = z3.Int('j_')
     in_range = z3.ForAll([j], z3.Implies(z3.And(j >= 0, j < n), z3.And(alt.at(j) >= 0, alt.at(j) <= 25000)))
     ok = h.choice(2) == 0
@@ -502,6 +509,19 @@ def replay_atmosphere(payload):
         back = float(altitude_from_pressure_isa_bada4(gp))
         if not math.isclose(gt, T, rel_tol=1e-12) or not math.isclose(gp, p, rel_tol=1e-10) or abs(back - hh) > 1e-6:
             bad.append(dict(altitude=hh, temperature=[gt, T], pressure=[gp, p], altitude_back=back))
+    # the same altitudes given as whole metres in integer containers
+    whole = [0, 500, 10999, 11000, 11001, 15000, 20000, 25000]
+    want = np.asarray(pressure_at_altitude_isa_bada4(np.array(whole, dtype=float)), dtype=float)
+    for label, arg in (('int64 array', np.array(whole, dtype=np.int64)), ('int32 array', np.array(whole, dtype=np.int32)), ('list of ints', list(whole))):
+        try:
+            got = np.asarray(pressure_at_altitude_isa_bada4(arg), dtype=float)
+            tgot = np.asarray(temperature_at_altitude_isa_bada4(arg), dtype=float)
+        except Exception as e:   # noqa
+            bad.append(dict(altitudes=label, error=f'{type(e).__name__}: {e}'))
+            continue
+        if not np.allclose(got, want, rtol=1e-12, atol=0) or not np.allclose(tgot, np.asarray(temperature_at_altitude_isa_bada4(np.array(whole, dtype=float))), rtol=1e-12):
+            k = int(np.argmax(np.abs(got - want)))
+            bad.append(dict(altitudes=label, altitude=whole[k], pressure=[float(got[k]), float(want[k])]))
     return dict(reproduced=bool(bad), observed=bad[:4], required='ISA temperature / pressure, mutually inverse conversions')
 
 
